@@ -121,6 +121,8 @@ inductive Event where
   | deliver (it : Item)
   | execute (t : Nat) (ok : Bool)                -- the executor runs the action of task t and reports
   | stop (wf : Nat) (s : St) (msg : String)      -- engine.stop_workflow(wf, s, msg): force-fail / succeed / cancel
+  | lose (it : Item)                             -- a post-commit operation fails (the exception is swallowed
+                                                 -- by post_tx_queue): what it would have sent is lost
   | pause (wf : Nat)                             -- engine.pause_workflow(wf)
   | resume (wf : Nat)                            -- engine.resume_workflow(wf)
   deriving Repr
@@ -275,9 +277,14 @@ def startWf (c : Cfg) (w : World) (d : Nat) (parent : Option Nat) (index : Nat) 
   let w2 := dispatch w1 i (startTasks (defOf c d))
   if check then checkAndComplete w2 i else w2
 
+/-- the state of a sub-workflow task whose child is refused because its workflow execution (state s) is
+    completed (`Task.get_state_for_completed_workflow`, repo patch 19): cancelled with a CANCELLED workflow,
+    failed otherwise -/
+def refusedState (s : St) : St := if s == .CANCELLED then .CANCELLED else .ERROR
+
 /-- `WorkflowAction.schedule` for item `idx` of task t (called when the parent workflow execution is not
     completed; for a completed one `schedule` raises WorkflowException since repo patch 16 and the caller
-    completes the task with ERROR) -/
+    completes the task with `refusedState`) -/
 def startSub (c : Cfg) (w : World) (t : Nat) (d : Nat) (idx : Nat) : World :=
   if c.viaRpc then { w with pending := w.pending ++ [.postStartSub t idx] }
   else startWf c w d (some t) idx false
@@ -301,11 +308,20 @@ def completeTask (c : Cfg) (w : World) (t : Nat) (s : St) : World :=
                            pending := if nt.isEmpty then w.pending ++ [.postCheck tk.wf] else w.pending }
         dispatch w1 tk.wf nt
 
-/-- `WithItemsTask._get_next_indexes` on the child rows (no unaccepted completed rows without rerun):
-    the indexes from the number of accepted / running / idle children up to count, cut to capacity -/
+/-- `WithItemsTask._get_next_indexes` on the child rows: the indexes of completed children whose result does
+    not count any more (`accepted` reset by `_reset_actions`) and that are not taken by an accepted / running /
+    idle child, followed by the not yet taken indexes above them; if there is none, the indexes from the number of
+    accepted / running / idle children up to count; cut to capacity -/
 def wiNextIndexes (w : World) (t : Nat) (count : Nat) (cap : Option Nat) : List Nat :=
-  let taken := (childrenOfTask w t).filter fun p => p.2.accepted || isRunning p.2.state || isIdle p.2.state
-  let l := (List.range count).drop taken.length
+  let ch := childrenOfTask w t
+  let takenRows := ch.filter fun p => p.2.accepted || isRunning p.2.state || isIdle p.2.state
+  let taken := takenRows.map (·.2.index)
+  let unacc := (ch.filter fun p => !p.2.accepted && isCompleted p.2.state).map (·.2.index)
+  let cands := (List.range count).filter fun i => unacc.contains i && !taken.contains i
+  let cands := cands ++ (unacc.filter fun i => i ≥ count && !taken.contains i).eraseDups
+  let l := match cands.getLast? with
+    | some m => cands ++ (if m + 1 < count then (List.range count).filter fun i => i > m && !taken.contains i else [])
+    | none => (List.range count).drop takenRows.length
   match cap with
   | some k => l.take k
   | none => l
@@ -322,7 +338,7 @@ def wiSchedule (c : Cfg) (w : World) (t : Nat) (d : Nat) (count : Nat) (cap : Op
       | none => w
       | some e =>
         -- WorkflowAction.schedule raises for a completed parent workflow: the task completes with ERROR
-        if isCompleted e.state then completeTask c w t .ERROR
+        if isCompleted e.state then completeTask c w t (refusedState e.state)
         else
           let w1 := idxs.foldl (fun w i => startSub c w t d i) w
           match w1.tasks[t]? with
@@ -344,7 +360,7 @@ def runTask (c : Cfg) (w : World) (t : Nat) : World :=
       | none => w1
       | some .action => { w1 with pending := w1.pending ++ [.postRunAction t] }
       | some (.subwf d none _) =>
-        if isCompleted e.state then completeTask c w1 t .ERROR else startSub c w1 t d 0
+        if isCompleted e.state then completeTask c w1 t (refusedState e.state) else startSub c w1 t d 0
       | some (.subwf d (some n) conc) =>
         let w2 := { w with tasks := w.tasks.set t { tk with state := .RUNNING, wi := some (n, conc) } }
         wiSchedule c w2 t d n conc
@@ -430,6 +446,13 @@ def hasLive (w : World) (t : Nat) : Bool :=
     | _ => false) ||
   (childrenOfTask w t).any fun p => !isCompleted p.2.state
 
+/-- `RegularTask._reset_actions` (no reset flag): the results of the failed / cancelled children of the task
+    do not count any more -/
+def resetKids (w : World) (t : Nat) : World :=
+  { w with execs := w.execs.mapIdx fun _ e =>
+      if e.parent == some t && e.accepted && (e.state == .ERROR || e.state == .CANCELLED)
+      then { e with accepted := false } else e }
+
 /-- `task_handler.run_task(first_run=False)` -> `RegularTask._run_existing` (a RunExistingTask command: an
     IDLE task found by `continue_workflow` on resume) -/
 def runExisting (c : Cfg) (w : World) (t : Nat) : World :=
@@ -442,15 +465,16 @@ def runExisting (c : Cfg) (w : World) (t : Nat) : World :=
     match w.execs[tk.wf]? with
     | none => w
     | some e =>
-      let w1 := { w with tasks := w.tasks.set t { tk with state := .RUNNING, processed := false } }
+      let w0 := resetKids w t
+      let w1 := { w0 with tasks := w0.tasks.set t { tk with state := .RUNNING, processed := false } }
       match kindOf c e.defn tk.name with
       | none => w1
       | some .action => { w1 with pending := w1.pending ++ [.postRunAction t] }
       | some (.subwf d none _) =>
-        if isCompleted e.state then completeTask c w1 t .ERROR else startSub c w1 t d 0
+        if isCompleted e.state then completeTask c w1 t (refusedState e.state) else startSub c w1 t d 0
       | some (.subwf d (some n) conc) =>
         let wi := tk.wi.getD (n, conc)
-        let w2 := { w with tasks := w.tasks.set t { tk with state := .RUNNING, processed := false, wi := some wi } }
+        let w2 := { w0 with tasks := w0.tasks.set t { tk with state := .RUNNING, processed := false, wi := some wi } }
         wiSchedule c w2 t d wi.1 wi.2
 
 /-- `Task.update(state)` (an external state change of the task's sub-workflow) -/
@@ -560,7 +584,10 @@ def prop (c : Cfg) : Nat → Mode → World → Nat → World × Bool
       match r.1.execs[x]? with
       | none => r
       | some e =>
-        if isValidTransition e.state .RUNNING == some true then
+        -- repo patch 20: a nested call (a resumed sub-workflow resumes its parent) may have resumed, even
+        -- completed, this execution already
+        if !isPausedOrIdle e.state then r
+        else if isValidTransition e.state .RUNNING == some true then
           let w1 := resumeSelf c (setState r.1 x e .RUNNING) x
           match e.parent with
           | none => (w1, false)
@@ -608,6 +635,7 @@ def step (c : Cfg) (w : World) : Event → World
     match s with
     | .CANCELLED => if a < w.execs.length then cancelTx w a msg else w
     | _ => (stopOne w a s (.op msg)).getD w
+  | .lose it => if !w.pending.contains it then w else { w with pending := removeFirst w.pending it }
   | .pause a =>
     let r := prop c (fuelOf w) .pause w a
     if r.2 then rolledBack w r.1 else r.1
@@ -637,7 +665,7 @@ def step (c : Cfg) (w : World) : Event → World
           | some (.subwf d _ _) =>
             -- DefaultEngine.start_workflow (repo patch 16): a child of a completed workflow execution is
             -- not started, its parent task is completed with ERROR
-            if isCompleted e.state then completeTask c w t .ERROR else startWf c w d (some t) i true
+            if isCompleted e.state then completeTask c w t (refusedState e.state) else startWf c w d (some t) i true
           | _ => w
         | none => w
       | none => w
